@@ -109,7 +109,7 @@ example : ¬ WFB exPlaceholderDict ∧ WFH exPlaceholderDict ∧ NoDictKey exPla
     have := h.2.2.2.2.1 (.int 0) hm 0 rfl
     simp at this
   · simp only [exPlaceholderDict, WFH]
-    refine ⟨VLen.none _, ⟨⟨rfl, rfl, by decide⟩, VLen.none _⟩, by decide, by decide, ?_, fun _ => by decide, by decide⟩
+    refine ⟨VLen.none _, ⟨⟨rfl, rfl, by decide⟩, VLen.none _⟩, by decide, by decide, ?_, ⟨fun _ => by decide, fun _ => rfl⟩, by decide⟩
     intro k hk j hj
     have : dec (B.leaf "$.s.d.key" (.int .u32) none [0]) = [.int 0] := by decide
     rw [this] at hk
@@ -179,9 +179,13 @@ theorem foldl_push_interp' (ext : Ext) (dt : DataType) (n : Bool) (md : Metadata
 
 /-- **R3' — `runRows_interp` without `Safe`.**  After all records have been pushed into a fresh root, the rows the root
 holds are exactly the documented rows `interpRow` of the records, in order; the root is a struct of `rows.length` rows
-without validity, and every column has length `rows.length`. -/
+without validity, and every column has length `rows.length`.  `coveredWF` (Lemmas/C01NewShape.lean) is true of everything
+`build_builder` refuses and of everything it accepts EXCEPT `Dictionary(integer, V)` with `V` ∈ Utf8View, Date32, Date64,
+Time32, Time64, Timestamp, Duration, Decimal128, Dictionary (value builders that accept strings without being Utf8 /
+LargeUtf8 builders); a dictionary whose value builder refuses strings (`V` = Null, Boolean, an integer / float type, a
+binary type, a list, map, struct or union) is INSIDE: every non-null push into it fails, as the specification demands. -/
 theorem runRows_interp' (ext : Ext) (fields : List Field) (rows : List SVal) (root0 root : B)
-    (hc : fields.all coveredF = true) (h0 : newRoot fields = .ok root0)
+    (hc : fields.all coveredWF = true) (h0 : newRoot fields = .ok root0)
     (hraw : ∀ x ∈ rows, structStreamsAlternate x = true)
     (hnar : (∀ x ∈ rows, noRaw x = true) ∨ narrowRoot fields = true) (h : runRows ext fields rows = .ok root) :
     All2 (fun lv x => interpRow ext fields x = .ok lv) (dec root) rows ∧
@@ -194,7 +198,7 @@ theorem runRows_interp' (ext : Ext) (fields : List Field) (rows : List SVal) (ro
   have h' : rows.foldlM (push ext) root0 = .ok root := h'
   obtain ⟨hw0, hd0, ht0⟩ := newRoot_fresh h0
   obtain ⟨ls, hd, hall⟩ := foldl_push_interp' ext _ _ _ rows root0 root hraw hnar (Build.WFH_of_WFB _ hw0)
-    (Build.newRoot_NoDictKey h0) (Det_of_WFB hw0) (newRoot_shape hc h0) h'
+    (Build.newRoot_NoDictKey h0) (Det_of_WFB hw0) (newRoot_shapeW hc h0) h'
   rw [hd0, List.nil_append] at hd
   refine ⟨by rw [hd]; exact hall, hrows.2.2.2.2, ?_⟩
   obtain ⟨p, bl, c, s, hr0⟩ := runRows_interp.newRoot_struct h0
@@ -204,6 +208,19 @@ theorem runRows_interp' (ext : Ext) (fields : List Field) (rows : List SVal) (ro
     simpa [dec_struct, maskNull] using this
   subst hlen
   exact ⟨_, _, _, _, _, rfl, by rw [dec_struct]; rfl⟩
+
+/-- non-vacuity of `runRows_interp'` OUTSIDE `covered`: `d: Dictionary(Int8, Int32)?` — the value builder refuses strings — is
+inside `coveredWF`; a batch of nulls is accepted and the hypotheses of R3' hold; a string is refused by the builder and
+undefined in the specification alike -/
+def exRefusingFields : List Field := [.mk "d" (.dictionary .int8 .int32) true []]
+def exRefusingRows : List SVal := [.record "R" (.cons "d" 0 .none .nil), .record "R" (.cons "d" 0 .unit .nil)]
+
+example : exRefusingFields.all coveredWF = true ∧ exRefusingFields.all coveredF = false ∧
+    (∀ x ∈ exRefusingRows, structStreamsAlternate x = true) ∧ (∀ x ∈ exRefusingRows, noRaw x = true) ∧
+    (runRows {} exRefusingFields exRefusingRows).isOk = true ∧
+    (exRefusingRows.map (interpRow {} exRefusingFields)).all (·.isOk) = true ∧
+    (interpRow {} exRefusingFields (.record "R" (.cons "d" 0 (.str "5") .nil))).isErr = true ∧
+    (toMarrow {} exRefusingFields [.record "R" (.cons "d" 0 (.str "5") .nil)]).isErr = true := by decide +kernel
 
 /-! ## the end-to-end statements -/
 
@@ -255,7 +272,7 @@ theorem C01_build_decode' (ext : Ext) (fields : List Field) (rows : List SVal) (
       ∀ c ∈ Lemmas.C03.decHRoot root, ∀ r ∈ c, r.isSome = true := by
     intro root hrun
     obtain ⟨root0, h0, hw, hd⟩ := hfacts root hrun
-    obtain ⟨_, _, p, fs, cached, next, seen, rfl, _⟩ := runRows_interp' ext fields rows root0 root hcov h0 hraw hnar hrun
+    obtain ⟨_, _, p, fs, cached, next, seen, rfl, _⟩ := runRows_interp' ext fields rows root0 root (Build.all_coveredWF_of_coveredF hcov) h0 hraw hnar hrun
     intro c hc
     simp only [Lemmas.C03.decHRoot, List.mem_map] at hc
     obtain ⟨c', hc', rfl⟩ := hc
@@ -264,7 +281,7 @@ theorem C01_build_decode' (ext : Ext) (fields : List Field) (rows : List SVal) (
     (fun r hr => let ⟨_, _, hw, _⟩ := hfacts r hr; hw) hrootdet h
   obtain ⟨root0, h0, hw, hd⟩ := hfacts root hrun
   obtain ⟨hall, hcols, p, fs, cached, next, seen, rfl, hdecr⟩ :=
-    runRows_interp' ext fields rows root0 root hcov h0 hraw hnar hrun
+    runRows_interp' ext fields rows root0 root (Build.all_coveredWF_of_coveredF hcov) h0 hraw hnar hrun
   refine ⟨decCols fs, ?_, ?_, ?_, ?_⟩
   · rw [hdec]
     simp only [decRoot, List.map_map]
